@@ -523,6 +523,19 @@ class LegacyHandler:
         self.calls.append((ex, req, resp, params))
 
 
+# every parameter list the legacy shim recognises, one trigger at a time: the five first-parameter names (the other names do
+# not look like a request / response), then the two (request, response) pairs in second and third place
+LEGACY_SIGNATURES = [(first, 'a', 'b', 'c') for first in ('e', 'err', 'error', 'ex', 'exception')] + [
+    ('x', 'req', 'resp', 'params'), ('x', 'request', 'response', 'params'), ('ex', 'req', 'resp', 'params')]
+
+
+def legacy_handler(names):
+    """A LegacyHandler class whose __call__ has the given parameter names."""
+    ns = {}
+    exec('def __call__(self, %s):\n    self.calls.append((%s,))\n' % (', '.join(names), ', '.join(names)), ns)
+    return stubclass(type('LegacyHandler_' + '_'.join(names), (LegacyHandler,), {'__call__': ns['__call__']}))
+
+
 async def _async_handle(req, resp, ex, params):
     pass
 
@@ -582,7 +595,7 @@ def registry_shapes(v, asgi):
     R[C] = old
     R0 = dict(R)
     app = v.obj(AAPP if asgi else APP, _error_handlers=R)
-    v.expect_covers('registered', 'default-handle', 'no-default-handle', 'rejected', *([] if asgi else ['legacy']))
+    v.expect_covers('registered', 'default-handle', 'no-default-handle', 'rejected', *(['sync-function-rejected'] if asgi else ['legacy']))
     app0 = snapshot(app)
     class_attrs0 = {c: dict(vars(c)) for c in (C, D, N, Plain)}
     shape = v.choose(7, 'exception-arg')
@@ -595,8 +608,8 @@ def registry_shapes(v, asgi):
         ((C, Plain, N), [C], Plain),
         (N, [N], None),
     ][shape]
-    kind = v.choose(2 if asgi else 3, 'handler-kind')  # 0 explicit, 1 omitted, 2 legacy signature (WSGI only)
-    h = [Handler(v, 'h', asgi), None, LegacyHandler('legacy')][kind]
+    kind = v.choose(3, 'handler-kind')  # 0 explicit, 1 omitted, 2 legacy signature (WSGI) / a plain (non-coroutine) python function (ASGI)
+    h = Handler(v, 'h', asgi) if kind == 0 else (None if kind == 1 else _sync_handle if asgi else legacy_handler(LEGACY_SIGNATURES[v.choose(len(LEGACY_SIGNATURES), 'legacy-signature')])('legacy'))
     arg0 = list(arg) if isinstance(arg, list) else None
     h0 = snapshot(h) if h is not None else None
     out = v.call(app, arg, h) if kind != 1 else v.call(app, arg)
@@ -607,6 +620,13 @@ def registry_shapes(v, asgi):
     v.check('exception-classes-are-not-modified', all(same_mapping(dict(vars(c)), class_attrs0[c]) for c in class_attrs0))
     v.check('given-iterable-of-classes-is-not-modified', arg0 is None or (len(arg) == len(arg0) and all(a is b for a, b in zip(arg, arg0))))
     v.check('given-handler-object-is-not-modified', h is None or same_fields(snapshot(h), h0, except_for=('calls',)))
+    if asgi and kind == 2:
+        # "handler (callable): A coroutine function": a synchronous python function would never be awaited -- refused at
+        # registration, whatever the exception argument is
+        v.check('sync-python-function-rejected-for-an-asgi-app', out.exc is not None and out.exc.isa(v.real('falcon.errors:CompatibilityError')))
+        v.check('rejected-registration-changes-nothing', set(got) == set(R0) and all(got[k] is R0[k] for k in R0))
+        v.cover('sync-function-rejected')
+        return
     if kind == 1 and shape != 0:
         # no explicit handler: only a single class that defines `handle` is acceptable
         v.check('omitted-handler-without-handle-attribute-rejected', out.exc is not None and out.exc.isa(AttributeError))
@@ -802,7 +822,8 @@ def compose_error_response(v):
     ser = Serializer(v)
     app = v.obj(APP, _serialize_error=ser)
     req = Req(v)
-    resp, H0 = mk_resp(v, with_body=False)
+    # (body fields set earlier or not: _handle_exception clears them first, but composing must not depend on that -- nor undo it)
+    resp, H0 = mk_resp(v, with_body=bool(v.choose(2, 'resp-has-body')))
     hdrs, pairs, cookie = raised_headers(v, 'err')
     err = mk_exc(v, v.real('falcon:HTTPError'), status=v.str('err_status'), headers=hdrs, title=v.str('err_title'), description=None, code=None, link=None)
     v.expect_covers('error-with-set-cookie' if cookie else 'error-composed')
@@ -1024,19 +1045,29 @@ def dict_is(d, exp):
 
 @harness(PROP, HE + '.to_dict')
 def http_error_to_dict(v):
-    v.expect_covers('dict')
+    import collections
+
+    v.expect_covers('dict', 'dict-of-the-requested-type')
     f = error_fields(v)
     err = mk_http_error(v, f)
     err0 = snapshot(err)
-    out = v.call(err)
+    # the optional obj_type argument ("a dict-like type that will be used to store the error information"): omitted / given
+    obj_type = collections.OrderedDict if v.choose(2, 'obj_type-given') else None
+    args = () if obj_type is None else (obj_type,)
+    out = v.call(err, *args)
     v.check('no-exception', out.exc is None)
     if out.exc is not None:
         return
     d = out.value
     # frame: a representation is computed from the error; the error itself keeps its fields (no cached dict either)
     v.check('to-dict-leaves-the-error-unchanged', same_fields(snapshot(err), err0))
-    out2 = v.call(err)
+    out2 = v.call(err, *args)
     v.check('each-call-returns-a-new-dict', out2.exc is None and isinstance(out2.value, dict) and out2.value is not d)
+    if obj_type is not None:
+        v.check('result-is-an-instance-of-the-requested-mapping-type', type(d) is obj_type)
+        v.cover('dict-of-the-requested-type')
+    else:
+        v.check('result-is-a-plain-dict-by-default', type(d) is dict)
     v.check('title-always-present', isinstance(d, dict) and 'title' in d and veq(d['title'], f['title']))
     for k in ('description', 'code', 'link'):
         v.check('%s-present-iff-not-none' % k, (k in d) == (f[k] is not None))
@@ -1047,9 +1078,17 @@ def http_error_to_dict(v):
 @harness(PROP, HE + '.__init__', setup=_error_setup)
 def http_error_init(v):
     v.expect_covers('link', 'no-link', 'constructed')
+    import http
+
     err = v.obj(HE)
-    status = v.str('status')
-    v.assume(contains(status, ' '))  # a status line "ddd reason"; other accepted forms are normalised by code_to_http_status (C05)
+    # every documented form of the status argument: an arbitrary status line "ddd reason", an int code, an http.HTTPStatus
+    # member, the bare code as a str (the last three: the line is the one code_to_http_status documents for the code -- C05)
+    kind = v.choose(4, 'status-form')
+    if kind == 0:
+        status = line = v.str('status')
+        v.assume(contains(status, ' '))
+    else:
+        status, line = [(404, '404 Not Found'), (http.HTTPStatus.IM_A_TEAPOT, "418 I'm a Teapot"), ('503', '503 Service Unavailable')][kind - 1]
     kw = {}
     title = kw['title'] = v.str('title') if v.choose(2, 'title?') else None
     description = kw['description'] = v.str('description') if v.choose(2, 'description?') else None
@@ -1062,11 +1101,12 @@ def http_error_init(v):
     if out.exc is not None:
         return
     g = lambda k: v.get(err, k)  # noqa: E731
-    v.check('status-description-code-headers-stored', And(veq(g('status'), status), veq(g('description'), description), veq(g('code'), code), g('headers') is headers))
+    v.check('status-description-code-headers-stored', And(veq(g('status'), status) if kind == 0 else g('status') is status,
+                                                          veq(g('description'), description), veq(g('code'), code), g('headers') is headers))
     if title is not None and Len(title) > 0:
         v.check('given-title-kept', g('title') == title)
     else:
-        v.check('title-defaults-to-status-line', g('title') == status)
+        v.check('title-defaults-to-status-line', g('title') == line)
     if href is not None and Len(href) > 0:
         text = href_text if (href_text is not None and Len(href_text) > 0) else DEFAULT_LINK_TEXT
         v.check('link-built-from-href-and-href-text', dict_is(g('link'), {'text': text, 'href': uri_encode(v, href), 'rel': 'help'}))
@@ -1383,23 +1423,35 @@ def default_chain(v, asgi):
         return
     req = FullReq(v)
     resp, H0 = mk_resp(v)
-    v.set(resp, 'options', Options(True, MediaHandlers(v, REGISTERED[1])))
+    # resp.options: the built-in XML serialization on or off; no / the default / a custom set of registered media types
+    xml = bool(v.choose(2, 'xml_error_serialization'))
+    v.set(resp, 'options', Options(xml, MediaHandlers(v, REGISTERED[v.choose(3, 'registered-media-types')])))
     HTTPNotFound, HTTPStatus = v.real('falcon:HTTPNotFound'), v.real('falcon:HTTPStatus')
     what = v.choose(4, 'raised')
-    f = {'title': v.str('title'), 'description': v.str('description'), 'code': None, 'link': None}
+    hdrs, pairs = None, []
     if what == 0:
         ex = mk_exc(v, Sub)
         status = '500 Internal Server Error'
         f = {'title': status, 'description': None, 'code': None, 'link': None}
     elif what == 1:
         status = v.str('err_status')
-        ex = mk_exc(v, HTTPNotFound, status=status, headers=None, **f)
+        # an HTTPError with all or none of its optional parts (every subset: the to_dict / default_serialize_error harnesses)
+        if v.choose(2, 'optional-error-fields?'):
+            f = {'title': v.str('title'), 'description': v.str('description'), 'code': v.int('code'),
+                 'link': {'text': v.str('link_text'), 'href': v.str('link_href'), 'rel': 'help'}}
+        else:
+            f = {'title': v.str('title'), 'description': None, 'code': None, 'link': None}
+        hdrs, pairs = plain_headers(v, 'err')
+        ex = mk_exc(v, HTTPNotFound, status=status, headers=hdrs, **f)
     elif what == 2:
         status = v.str('st_status')
-        ex = mk_exc(v, HTTPStatus, status=status, headers=None, text=v.str('st_text'))
+        hdrs, pairs = plain_headers(v, 'st')
+        ex = mk_exc(v, HTTPStatus, status=status, headers=hdrs, text=v.str('st_text'))
     else:
         ex = mk_exc(v, Quit)
-    v.expect_covers('status', 'rendered', 'json-500', 'json-error', 'not-handled')
+    v.expect_covers('status', 'status-with-headers', 'rendered', 'error-with-headers', 'json-500', 'json-error', 'not-handled',
+                    'nothing-acceptable', 'media-handler', 'xml-builtin', 'no-serializer')
+    hdrs0 = copy_container(hdrs)
     R = v.get(app, '_error_handlers')
     R0, app0, ex0, resp0 = dict(R), snapshot(app), snapshot(ex), snapshot(resp)
     out = v.call(app, req, resp, ex, {})
@@ -1419,17 +1471,24 @@ def default_chain(v, asgi):
     v.check('response-status-is-the-raised-status-or-500', v.get(resp, 'status') == status)
     data, media, text = v.get(resp, '_data'), v.get(resp, '_media'), v.get(resp, 'text')
     H1 = map_of(v, resp)
+    # "its own status and HEADERS": what the raised HTTPStatus / HTTPError carries is on the response (and stays with the error)
+    Hs = headers_after(H0, pairs)
+    v.check('headers-container-of-the-raised-error-is-not-modified', same_container(hdrs, hdrs0))
     if what == 2:
-        v.check('http-status-body-is-its-text', And(text == ex.text if v.concrete else text == ex.fields['text'], data is None, media is None, H1.eq(H0)))
-        v.cover('status')
+        v.check('http-status-body-is-its-text', And(text == ex.text if v.concrete else text == ex.fields['text'], data is None, media is None, H1.eq(Hs)))
+        v.cover('status-with-headers' if pairs else 'status')
         return
     v.check('previous-text-discarded', text is None)
-    vary = (H0.val('vary') + ', Accept') if H0.has('vary') else 'Accept'
+    vary = (Hs.val('vary') + ', Accept') if Hs.has('vary') else 'Accept'
     v.check('vary-accept-appended', And(H1.has('vary'), H1.val('vary') == vary))
     preferred = req.last
     a = req.accept.lower()
     if preferred is None:
         preferred = MEDIA_JSON if contains(a, '+json') else (MEDIA_XML if contains(a, '+xml') else None)
+    v.check('response-headers-are-the-errors-own-plus-vary-and-the-negotiated-content-type',
+            H1.eq((Hs if preferred is None else Hs.put('content-type', preferred)).put('vary', vary)))
+    if pairs:
+        v.cover('error-with-headers')
     if preferred == MEDIA_JSON:
         h = v.get(resp, 'options').media_handlers.handler
         exp = expected_dict(f)
@@ -1442,6 +1501,19 @@ def default_chain(v, asgi):
             ok = len(calls) == 1 and dict_is(calls[0][0], exp) and data is calls[0][2]
         v.check('json-body-encodes-title-and-description', And(ok, H1.has('content-type'), H1.val('content-type') == MEDIA_JSON))
         v.cover('json-500' if what == 0 else 'json-error')
+    elif preferred is None:
+        v.check('nothing-acceptable-no-body', data is None and media is None)
+        v.cover('nothing-acceptable')
+    elif v.get(resp, 'options').media_handlers.handler is not None:
+        # "or, if the client prefers it, ... a configured media type": the document is handed over as media
+        v.check('configured-media-type-gets-the-error-document-as-media', dict_is(media, expected_dict(f)) and data is None)
+        v.cover('media-handler')
+    elif xml:
+        v.check('xml-body-is-the-encoding-of-the-error-fields', xml_doc_is(v, data, f) and media is None)
+        v.cover('xml-builtin')
+    else:
+        v.check('no-serializer-for-preferred-type-no-body', data is None and media is None)
+        v.cover('no-serializer')
     v.cover('rendered')
 
 
@@ -1450,16 +1522,21 @@ CHAIN_INLINE = [APP + '.add_error_handler', APP + '._find_error_handler', APP + 
                 HE + '.to_dict', HE + '.to_json', HE + '._to_xml'] + RESP_INLINE
 
 
-@harness(PROP, APP + '._handle_exception', setup=_chain_setup, inline=CHAIN_INLINE)
 def wsgi_default_chain(v):
     default_chain(v, False)
 
 
-@harness(PROP, AAPP + '._handle_exception', setup=_chain_setup,
-         inline=CHAIN_INLINE + [APP + '.__init__', AAPP + '.add_error_handler', AAPP + '._http_status_handler', AAPP + '._http_error_handler',
-                                AAPP + '._python_error_handler'] + ASYNC_INLINE)
 def asgi_default_chain(v):
     default_chain(v, True)
+
+
+for _r in (0, 1, 2):  # (one harness per set of registered media types: run time)
+    harness(PROP, APP + '._handle_exception', name='wsgi_default_chain[registered=%d]' % _r, setup=_chain_setup, inline=CHAIN_INLINE,
+            fix={'registered-media-types': _r})(wsgi_default_chain)
+    harness(PROP, AAPP + '._handle_exception', name='asgi_default_chain[registered=%d]' % _r, setup=_chain_setup,
+            inline=CHAIN_INLINE + [APP + '.__init__', AAPP + '.add_error_handler', AAPP + '._http_status_handler', AAPP + '._http_error_handler',
+                                   AAPP + '._python_error_handler'] + ASYNC_INLINE,
+            fix={'registered-media-types': _r})(asgi_default_chain)
 
 
 
@@ -1579,6 +1656,34 @@ KILLS = [
     ('falcon/app_helpers.py', "            resp.data = exception._to_xml()\n", "            resp.data = exception._to_xml()\n            options.xml_error_serialization = False\n",
      'default_serialize_error#serializing-leaves-options-and-media-handlers-unchanged'),
     ('falcon/app_helpers.py', "    options = resp.options\n", "    options = resp.options\n    exception.link = None\n", 'default_serialize_error#serializing-leaves-the-error-unchanged'),
+    # --- inputs that the harnesses used to fix to one constant (audit: "an input the code reads is a constant in the harness")
+    # a default handler re-implements the composition "for speed" and forgets the headers the handled HTTPStatus / HTTPError
+    # carries (the handler harnesses and the end-to-end chain used to raise errors without headers only)
+    ('falcon/app.py', "        self._compose_status_response(req, resp, status)\n\n    def _http_error_handler(\n",
+     "        resp.status = status.status\n        resp.text = status.text\n\n    def _http_error_handler(\n",
+     'falcon.app:App._http_status_handler#own-headers-of-the-handled-error-copied-others-unchanged'),
+    ('falcon/app.py', "        self._compose_error_response(req, resp, error)\n\n    def _python_error_handler(\n",
+     "        resp.status = error.status\n        self._serialize_error(req, resp, error)\n\n    def _python_error_handler(\n",
+     'falcon.app:App._handle_exception#response-headers-are-the-errors-own-plus-vary-and-the-negotiated-content-type'),
+    # with the built-in XML serialization switched off (the chain used to run with it switched on only) an XML preference
+    # without a handler loses its Content-Type
+    ('falcon/app_helpers.py', "            resp.data = exception._to_xml()\n\n", "            resp.data = exception._to_xml()\n        else:\n            preferred = None\n\n",
+     'falcon.app:App._handle_exception#response-headers-are-the-errors-own-plus-vary-and-the-negotiated-content-type'),
+    # the error is serialized only onto a response without data (the compose harness used to start from an empty response only)
+    ('falcon/app.py', "        self._serialize_error(req, resp, error)\n", "        if resp.data is None:\n            self._serialize_error(req, resp, error)\n",
+     '_compose_error_response#serialization-delegated-once-to-configured-serializer'),
+    # the title default skips the normalisation of the status argument (the constructor harness used to pass status lines only)
+    ('falcon/http_error.py', "        self.title = title or misc.code_to_http_status(status)\n", "        self.title = title or str(status)\n",
+     'HTTPError.__init__#title-defaults-to-status-line'),
+    # the requested mapping type is ignored (to_dict used to be called without obj_type only)
+    ('falcon/http_error.py', "        obj = obj_type()\n", "        obj = {}\n", 'HTTPError.to_dict#result-is-an-instance-of-the-requested-mapping-type'),
+    # the legacy-signature shim no longer recognises (x, req, resp, params) (the one legacy handler used to be (ex, req, resp, params),
+    # which triggers both tests of the shim at once)
+    ('falcon/app.py', "        ) or arg_names[1:3] in (('req', 'resp'), ('request', 'response')):\n", "        ):\n",
+     'falcon.app:App.add_error_handler#legacy-handler-called-with-reordered-arguments'),
+    # ASGI: the coroutine guard is inverted (only callable objects and coroutine functions used to be registered)
+    ('falcon/asgi/app.py', "        if not iscoroutinefunction(handler) and is_python_func(handler):\n", "        if iscoroutinefunction(handler) and not is_python_func(handler):\n",
+     'falcon.asgi.app:App.add_error_handler#sync-python-function-rejected-for-an-asgi-app'),
 ]
 HARMLESS = [
     ('falcon/app.py', "            handler = self._error_handlers.get(exc)\n\n            if handler is not None:\n                return handler\n",
@@ -1605,14 +1710,29 @@ ASSUMPTIONS = [
     '(not total in fact for str with lone surrogates: UnicodeEncodeError would escape like the Set-Cookie case); uri.encode is an opaque deterministic function',
     'HTTPError status is a status line with a reason phrase: code_to_http_status returns it unchanged (C05)',
     'App.__init__: add_middleware and the constructors of the router / RequestOptions / ResponseOptions / CORSMiddleware / WebSocketOptions do not touch _error_handlers or _serialize_error (read, stubbed as no-ops)',
-    'three configurations of registered media types; resp.options.xml_error_serialization both ways',
-    'ASGI: FALCON_ASGI_WRAP_NON_COROUTINES is not set; handlers are coroutine callables',
+    'three configurations of registered media types; resp.options.xml_error_serialization both ways (default_serialize_error harnesses and the end-to-end chain alike)',
+    'ASGI: FALCON_ASGI_WRAP_NON_COROUTINES is not set (falcon.util.sync._should_wrap_non_coroutines reads os.environ: the test-suite switch of falcon itself); '
+    'registered handlers are coroutine callables, callable objects, or -- rejected -- a plain python function',
+    # inputs found fixed by the audit and deliberately left fixed
+    'default_serialize_error and the three default handlers are run on a response whose text / data / media have been cleared (mk_resp(with_body=False)): '
+    'their only caller chain is _handle_exception, which clears them first (proved there and again by the end-to-end chain, which starts from a response with all '
+    'three set); _compose_status_response / _compose_error_response themselves are run on both kinds of response',
+    'the response status before the handling is the constant "200 OK" and the responder params are {"id": <opaque>}: none of the functions under contract reads either '
+    '(they are overwritten resp. passed on; the frames compare them with what went in)',
+    'App.__init__ is called with cors_enable both ways and every other argument at its default (media_type, request_type, response_type, middleware, router, '
+    'independent_middleware, sink_before_static_route): none of them is read by the statements that build the handler registry / set the serializer (falcon/app.py:338-350, falcon/asgi/app.py:388-393)',
+    'an error handler that raises raises an instance of exactly HTTPStatus / HTTPError (or the unrelated Boom): the except clauses of _handle_exception match by isinstance, subclasses '
+    'differ only in their constructors (NOT_DECIDED); the end-to-end chain raises the subclass HTTPNotFound through the MRO lookup',
+    'registered handlers are objects that are true (functions, callable objects without __bool__/__len__): _find_error_handler compares with None; a falsy callable is not modelled '
+    '(the stub Tok declares no truth value, so a truth test on a handler would stop the run as unreached, not pass)',
+    'HTTPError.__init__: the status argument is an arbitrary status line, or one sample each of an int code, an http.HTTPStatus member and a bare-code str; headers are stored only (dict or None)',
+    'legacy (pre-3.0) handler signatures: each of the seven triggers of the shim alone plus (ex, req, resp, params); a current handler is (req, resp, ex, params, **kw)',
 ]
 NOT_DECIDED = [
     'the four try windows of App.__call__ / asgi.App.__call__ (every raise site reaches _handle_exception; re-raise only when it returns False): C03 run',
     'escaping correctness of the JSON / XML bytes and of uri.encode(href)',
     'WebSocket branch (resp is None, ws given) of asgi _handle_exception and of the three handlers; _ws_disconnected_error_handler',
-    'ASGI add_error_handler: CompatibilityError for non-coroutine python functions',
+    'ASGI add_error_handler: an exception class whose default `handle` is a synchronous function (the explicit synchronous handler is decided: rejected)',
     'exceptions raised by collaborators of the default handlers (req.log_error, a custom error serializer, a custom JSON handler) propagate out of _handle_exception (scope note in DESIGN.md)',
     'constructors of the HTTPError / HTTPStatus subclasses in errors.py / redirects.py (which status/headers they carry)',
 ]
